@@ -114,6 +114,42 @@ def record_map_phase(b, n):
         b.sig(f"record-map|{direction}|{how}|{entry}")
 
 
+BETWEEN = ["scramble-caller-containers", "compose", "print", "to_sql", "columns_used", "replace_leaves", "equality"]
+
+
+def between_evaluations(b, ops, held, case, rng, chosen=None):
+    """what a program does with a pipeline between two evaluations: it goes on using the lists / dicts it passed to
+    the builders, composes the pipeline onto others, prints it, translates it, asks which columns it uses.  None of
+    this may change what the pipeline computes."""
+    from data_algebra.view_representations import TableDescription
+    import data_algebra.SQLite
+
+    acts = chosen if chosen is not None else [a for a in BETWEEN if rng.random() < 0.35]
+    for a in acts:
+        try:
+            if a == "scramble-caller-containers":
+                B.scramble(held)
+            elif a == "compose":
+                for k, td in ops.get_tables().items():
+                    src = TableDescription(table_name=k + "_src", column_names=list(td.column_names))
+                    (src >> ops) if len(ops.get_tables()) == 1 else ops.replace_leaves({k: src})
+            elif a == "print":
+                repr(ops), str(ops), ops.to_python(pretty=True)
+            elif a == "to_sql":
+                data_algebra.SQLite.SQLiteModel().to_sql(ops)
+            elif a == "columns_used":
+                ops.columns_used(), ops.methods_used()
+            elif a == "replace_leaves":
+                ops.replace_leaves({k: TableDescription(table_name=k, column_names=list(td.column_names))
+                                    for k, td in ops.get_tables().items()})
+            elif a == "equality":
+                ops == B.build(case["recipe"])
+        except Exception as ex:
+            b.count("between_action_raised", a + ":" + type(ex).__name__)
+        b.count("between_actions", a)
+    return acts
+
+
 def tied_limit(case, frames, engine="pandas"):
     """True if some order_rows(limit=k) of the pipeline has rows with equal order keys in its own input, as evaluated by
     the same engine (Polars and Pandas differ on null comparisons, so ties differ too)"""
@@ -152,7 +188,20 @@ def run_batch(seed, batch, tier):
         try:
             with time_limit(30):
                 case, st = diff.new_case(b.rng, prof(), tier, gl)
-                ops = B.build(case["recipe"])
+                use_terms = b.rng.random() < 0.3
+                B.HOLD = []
+                try:
+                    try:
+                        ops = B.build(case["recipe"], use_terms=use_terms)
+                    except Exception:
+                        if not use_terms:
+                            raise
+                        use_terms = False   # not every name is expressible through the object API in the same way
+                        B.HOLD = []
+                        ops = B.build(case["recipe"])
+                    held = B.HOLD
+                finally:
+                    B.HOLD = None
                 base = diff.used_frames(case)
         except CaseTimeout:
             b.count("case_timeout")
@@ -175,9 +224,12 @@ def run_batch(seed, batch, tier):
         b.evaluation()
         results = []
         raised = None
+        between = []
         try:
             with time_limit(30):
                 for rep in range(2):
+                    if rep == 1:
+                        between = between_evaluations(b, ops, held, case, b.rng)
                     if entry == "eval":
                         r = ops.eval(frames)
                     elif entry == "transform":
@@ -200,6 +252,11 @@ def run_batch(seed, batch, tier):
         except Exception as ex:
             raised = ex
             b.count("raised", engine + ":" + type(ex).__name__)
+            if len(results) == 1:
+                b.violation("not-repeatable", f"({engine}, {how}, {entry}) the first evaluation returned, the second one (after "
+                            f"{between or 'nothing'}) raised {exc_str(ex)}\npipeline: {diff.describe(case)}",
+                            case=diff.case_json(case, {"presentation": how, "engine": engine, "entry": entry, "between": between,
+                                                       "use_terms": use_terms}))
         b.count("runs", engine, entry)
         b.count("presentations", how)
         bad = monitors.drain(b, "C19")
@@ -217,8 +274,10 @@ def run_batch(seed, batch, tier):
                 b.count("limit_with_ties_not_judged", engine)
                 m = None
             if m:
-                b.violation("not-repeatable", f"({engine}, {how}, {entry}) {m}\npipeline: {diff.describe(case)}",
-                            case=diff.case_json(case, {"presentation": how, "engine": engine, "entry": entry}))
+                b.violation("not-repeatable", f"({engine}, {how}, {entry}; between the two evaluations: {between or 'nothing'}) {m}\n"
+                            f"pipeline: {diff.describe(case)}",
+                            case=diff.case_json(case, {"presentation": how, "engine": engine, "entry": entry, "between": between,
+                                                       "use_terms": use_terms}))
             elif not bad:
                 seq = B.op_sequence(case["recipe"])
                 if any(o in ("extend", "project", "natural_join", "concat_rows") for o in seq):
@@ -244,4 +303,68 @@ def inconclusive(counters, sigs, tier):
     for ent in ("eval", "transform", "rshift", "ex"):
         if sum(r.get(ent, 0) for r in runs.values()) == 0:
             return f"entry point {ent} never exercised"
+    return None
+
+
+def replay(v):
+    """re-runs the two evaluations of a recorded case (same engine, entry point, presentation and in-between actions)"""
+    import random
+    import data_algebra
+    import polars as pl
+
+    c = v.get("case") or {}
+    if "suite_test" in c:
+        from vf import suite_stage
+
+        return suite_stage.replay(v, PID)
+    if "recipe" not in c:
+        if "spec" in c:
+            b = Batch(PID, 0, 0, "quick")
+            return None
+        return None
+    monitors.install()
+    rng = random.Random(0)
+    b = Batch(PID, 0, 0, "quick")
+    use_terms = bool(c.get("use_terms"))
+    B.HOLD = []
+    try:
+        ops = B.build(c["recipe"], use_terms=use_terms)
+        held = B.HOLD
+    finally:
+        B.HOLD = None
+    base = diff.used_frames(c)
+    engine, entry, how = c.get("engine", "pandas"), c.get("entry", "eval"), c.get("presentation", "default")
+    if engine == "pandas":
+        frames = {k: present(f, how if how in PRESENT else "default", rng) for k, f in base.items()}
+    else:
+        frames = {k: backends.to_polars(f.reset_index(drop=True), lazy=(engine == "polars-lazy")) for k, f in base.items()}
+    monitors.OBS.reset_case()
+    monitors.OBS.failures = []
+    results = []
+    for rep in range(2):
+        if rep == 1:
+            between_evaluations(b, ops, held, c, rng, chosen=list(c.get("between") or []))
+        try:
+            if entry == "transform":
+                r = ops.transform(list(frames.values())[0])
+            elif entry == "rshift":
+                r = list(frames.values())[0] >> ops
+            elif entry == "ex" and engine == "pandas":
+                r = ops.replace_leaves({k: data_algebra.data_ops.table(f, table_name=k) for k, f in frames.items()}).ex()
+            else:
+                r = ops.eval(frames)
+        except Exception as ex:
+            if rep == 1:
+                return f"not-repeatable: the second evaluation raised {exc_str(ex)}"
+            return None
+        if isinstance(r, pl.LazyFrame):
+            r = r.collect()
+        results.append(r)
+    bad = [f for f in monitors.OBS.failures if f["property"] == "C19"]
+    if bad:
+        return "input-modified: " + bad[0]["detail"]
+    fo = c.get("final_order")
+    m = frames_match(results[0], results[1], ordered_by=fo[0] if fo else None)
+    if m and not tied_limit(c, base, engine):
+        return "not-repeatable: " + m
     return None
